@@ -101,7 +101,9 @@ def steps(draw):
         if edition:
             ms = _as_editions(ms)
         return {'k': 'gen', 'backend': 'json' if kind == 'gen-json' else 'pysnmp', 'mod': ms['modules'][0],
-                'genTexts': draw(st.booleans()), 'keepLayout': draw(st.integers(0, 2)) == 0}
+                'genTexts': draw(st.booleans()), 'keepLayout': draw(st.integers(0, 2)) == 0,
+                # another template shipped with the package, for this call only
+                'template': draw(st.sampled_from((None, None, None, 'pysnmp/managed-objects-instances.j2'))) if kind == 'gen-pysnmp' else None}
     if kind == 'repeat':
         return {'k': 'repeat'}
     edition = bool(draw(st.integers(0, 2)))
@@ -142,12 +144,14 @@ def _identity_filter(symbol, text):
     return text
 
 
-def _gen(symgen, codegen, tree, genTexts, keep=False):
+def _gen(symgen, codegen, tree, genTexts, keep=False, template=None):
     """symtable + codegen on deep copies of `tree`; returns comparable outcome."""
     from pysmi import error
     t = copy.deepcopy(tree)
     st_ = fixtures.symtables()
     kw = {'textFilter': _identity_filter} if keep else {}
+    if template:
+        kw['dstTemplate'] = template
     try:
         sinfo, s = symgen.genCode(t, st_, genTexts=genTexts)
         st_[sinfo.name] = s
@@ -261,9 +265,11 @@ def history_prop(case, rec):
                 tree = parserFactory(**(dl.smiV1 if step['mod']['dialect'] == 'v1' else dl.smiV2))().parse(text)[0]
                 last_gen = (step, tree)
             cg_old = old_json if step['backend'] == 'json' else old_py
-            got, _ = _gen(old_sym, cg_old, tree, step['genTexts'], step.get('keepLayout'))
+            got, _ = _gen(old_sym, cg_old, tree, step['genTexts'], step.get('keepLayout'), step.get('template'))
             ref, _ = _gen(SymtableCodeGen(), JsonCodeGen() if step['backend'] == 'json' else PySnmpCodeGen(), tree, step['genTexts'],
-                          step.get('keepLayout'))
+                          step.get('keepLayout'), step.get('template'))
+            if step.get('template'):
+                rec.count('gen.other-template')
             if got != ref:
                 raise Violation('codegen-state-leak', 'step %d (%s): %s' % (i, step['backend'], _diff(got, ref)), case,
                                 {'step': i, 'text': mibgen.render_simple(step['mod'])})
